@@ -339,3 +339,17 @@ claim("C47", OSJ,
       "TLC; one region of 96 bytes, non-overlapping source / destination; ASCII strings strict, strings with bytes >= 0x80 are the "
       "recorded known finding (cp1252 round trip)",
       "DESIGN.md 5/C47", "OsHelpers")
+
+CLJ = ("TLA+ statement of the C layout rules (CLayout.tla: System V x86-64 and GCC packed layout, member-access offsets) used as the "
+       "deciding oracle, itself checked against GCC on every declaration; the layouts and access translations recorded from miasm are "
+       "judged by TLC")
+
+claim("C35", CLJ,
+      "CLayout.tla defines size, alignment and member offsets of base types, pointers, arrays, structs and unions (not packed: "
+      "natural alignment with tail padding; packed: alignment 1) and the offset / type a member-access path designates. For random "
+      "declaration sets GCC (sizeof, _Alignof, offsetof compiled and run) and CTypesManagerNotPacked / CTypesManagerPacked are both "
+      "compared with it by TLC; member accesses p->a.b[i] are translated by CHandler.c_to_expr (offset and size must be the "
+      "specification's) and back by expr_to_c_and_types (an access of the same expression and type must come back, for scalar members).",
+      "TLC; GCC on this machine is the platform; no bit-fields / anonymous members; one recorded known finding (accesses across "
+      "nested arrays), decided by TLC from the declaration",
+      "DESIGN.md 5/C35", "CLayout")
